@@ -1,6 +1,8 @@
 ------------------------------- MODULE MC_ScriptClass -------------------------------
 (* Template instances and their mutations, enumerated exhaustively: each byte replaced by    *)
-(* one of {00, 4c, 4d, 4e, 6a, ff}, each prefix (truncation), each byte deleted.  On every   *)
+(* one of {00, 4c, 4d, 4e, 6a, ff}, each prefix (truncation), each byte deleted, short    *)
+(* insertions (incl. 01, which turns the next byte into data), each direct push re-encoded   *)
+(* as PUSHDATA1/2/4.  On every   *)
 (* generated string at most one template holds (disjointness), and the string is emitted as   *)
 (* a case for the library's inspection queries.                                               *)
 EXTENDS ScriptClass, FiniteSets, TLC, Json
@@ -28,7 +30,11 @@ Mutate == /\ ~mutated /\ mutated' = TRUE
           /\ \/ \E i \in 1..Len(s), c \in Repl : s' = [s EXCEPT ![i] = c]
              \/ \E i \in 0..(Len(s) - 1) : s' = SubSeq(s, 1, i)
              \/ \E i \in 1..Len(s) : s' = SubSeq(s, 1, i - 1) \o SubSeq(s, i + 1, Len(s))
-             \/ \E i \in 0..Len(s), ins \in {<<76, 0>>, <<77, 0, 0>>, <<0>>, <<1, 7>>, <<106>>} : s' = SubSeq(s, 1, i) \o ins \o SubSeq(s, i + 1, Len(s))
+             \/ \E i \in 0..Len(s), ins \in {<<76, 0>>, <<77, 0, 0>>, <<0>>, <<1, 7>>, <<106>>, <<1>>} : s' = SubSeq(s, 1, i) \o ins \o SubSeq(s, i + 1, Len(s))
+             \* a direct push re-encoded in a longer form (same data, different bytes)
+             \/ \E i \in 1..Len(s), f \in {<<76>>, <<77, 0>>, <<78, 0, 0, 0>>} :
+                  /\ s[i] >= 1 /\ s[i] <= 75
+                  /\ s' = SubSeq(s, 1, i - 1) \o <<f[1], s[i]>> \o Tail(f) \o SubSeq(s, i + 1, Len(s))
 Next == Mutate
 Spec == Init /\ [][Next]_vars
 
